@@ -256,6 +256,8 @@ fn boolean_part(run: &Run, k_max: usize, small_full: bool, full_vals: bool) -> A
         // non-string subject, a pattern taken from a non-string): their negation is true
         ["match(@.p,'[')".into(), "search(@.q,'*a')".into(), "match(@.r,@.p)".into()],
         ["search(@.p,'')".into(), "match(@.q,'.*')".into(), "search(@.r,'a{2,1}')".into()],
+        // equalities of one operand with several literals, numbers in another spelling than the document's
+        ["@.p==1.0".into(), "@.p==0.0".into(), "@.p==''".into()],
     ];
     let cells_collide: Vec<Value> = {
         let mut v = vec![];
@@ -312,7 +314,7 @@ fn boolean_part(run: &Run, k_max: usize, small_full: bool, full_vals: bool) -> A
         forms.extend(extra);
     }
     // the two ordering-comparison sets run on the array-shaped container only (quick-tier budget)
-    let jobs: Vec<(usize, bool)> = (0..atom_sets.len()).flat_map(|a| if (7..13).contains(&a) && !full_vals { vec![(a, false)] } else { vec![(a, false), (a, true)] }).collect();
+    let jobs: Vec<(usize, bool)> = (0..atom_sets.len()).flat_map(|a| if (7..14).contains(&a) && !full_vals { vec![(a, false)] } else { vec![(a, false), (a, true)] }).collect();
     let mut total = Acc::new();
     for (ai, as_obj) in jobs {
         let atoms = &atom_sets[ai];
